@@ -157,7 +157,8 @@ package redis
 //@   modifies d.allocs, d.buf
 //@   ensures @len len(ss) == n && cap(ss) == n
 //@   ensures @slab-disjoint n > 0 && n < 512 ==> disjoint(ss, d.buf)
-//@   ensures @not-old-memory n > 0 ==> (fresh(ss) || (base(ss) == base(old(d.buf)) && off(ss) == off(old(d.buf))))
+//@   ensures @not-old-memory n > 0 ==> (fresh(ss) || within(ss, old(d.buf)))
+//@   ensures @slab-suffix fresh(d.buf) || within(d.buf, old(d.buf))
 
 //@ func (*Reader).buffered
 //@   prop C10 C11
@@ -210,8 +211,9 @@ package redis
 //@   ensures @ri readerRI(b)
 //@   ensures @line result1 == nil ==> len(result0) >= 1
 //@   loop 0 invariant readerRI(b) && 0 <= size && (!isnil(last) ==> size >= len(last) && len(last) >= 1)
+//@   loop 0 invariant (cap(full) == 0 || fresh(full)) && (fresh(b.slice.buf) || within(b.slice.buf, old(b.slice.buf))) && b.buf == old(b.buf)
 //@   loop 0 assume size <= 2305843009213693952 && len(b.buf) <= 2305843009213693952
-//@   loop 1 invariant 0 <= n && n <= len(buf) && len(buf) == size && !isnil(last) && size >= len(last) && len(last) >= 1
+//@   loop 1 invariant 0 <= n && n <= len(buf) && len(buf) == size && !isnil(last) && size >= len(last) && len(last) >= 1 && (size == 0 || fresh(buf) || within(buf, old(b.slice.buf)))
 
 //@ func (*Reader).ReadFull
 //@   prop C10 C11
